@@ -72,6 +72,8 @@ impl Ctx {
         if let Some((_, idx)) = &self.only {
             // Replay: execute exactly this case, twice, and require identical observations.
             let mut a = Report::new();
+            guard::set_current_family(name);
+            guard::set_current_index(*idx);
             f(*idx, &mut a);
             a.evaluations += 1;
             let mut b = Report::new();
@@ -93,7 +95,9 @@ impl Ctx {
         let run_range = |lo: u64, hi: u64| -> Report {
             let mut r = Report::new();
             guard::heartbeat(|| format!("{}:{}..{}", name, lo, hi));
+            guard::set_current_family(name);
             for i in lo..hi {
+                guard::set_current_index(i);
                 f(i, &mut r);
             }
             r.evaluations += hi - lo;
@@ -123,7 +127,9 @@ impl Ctx {
                         }
                         let hi = (lo + chunk).min(n);
                         guard::heartbeat(|| format!("{}:{}..{}", name, lo, hi));
+                        guard::set_current_family(name);
                         for i in lo..hi {
+                            guard::set_current_index(i);
                             f(i, &mut local);
                         }
                         local.evaluations += hi - lo;
